@@ -2,9 +2,9 @@
 # usage: bin/seedrun.sh <seeded-name> <tier> <ID> [ID...]   — apply seeded patch to /repo, run checks, revert.
 NAME="$1"; TIER="$2"; shift 2
 cd /repo && git diff --quiet || { echo "/repo dirty"; exit 2; }
-git -C /repo apply /verif/seeded/$NAME/patch.diff || exit 2
+git -C /repo apply /verif/seeded/$NAME/patch.diff || { echo 'patch does not apply'; exit 2; }
 for id in "$@"; do
   echo "=== $id on seeded/$NAME"
   /verif/bin/check $id $TIER 2>&1 | grep -E "^VIOLATION|^SUMMARY|^INFRA|^KNOWN" | head -8
 done
-git -C /repo checkout -- . 
+git -C /repo checkout -- . ; git -C /repo status --short | head -3
